@@ -5,6 +5,8 @@
 import ChialispModel.Drv.Base
 import ChialispModel.Drv.Conv
 import ChialispModel.Drv.Src
+import ChialispModel.Drv.Entry
+import ChialispModel.Drv.Purity
 import ChialispModel.Drv.Text
 import ChialispModel.Drv.Serde
 import ChialispModel.Drv.Tables
@@ -21,6 +23,8 @@ def main (args : List String) : IO UInt32 := do
   | ["base"] => Drv.Base.run; return 0
   | ["conv"] => Drv.Conv.run; return 0
   | ["src"] => Drv.Src.run; return 0
+  | ["entry"] => Drv.Entry.run; return 0
+  | ["purity"] => Drv.Purity.run; return 0
   | ["text"] => Drv.Text.run; return 0
   | ["serde"] => Drv.Serde.run; return 0
   | ["tables"] => Drv.Tables.run; return 0
